@@ -110,6 +110,12 @@ func sharedSchema() *jsonapi.Schema {
 		// (a library that refuses the second declaration has no such type: nothing to share)
 		s.RemoveAttr("t11", "dup")
 	}
+	// a struct-backed type that serves fewer fields than its struct has: one attribute was taken out
+	// of the schema when it was built (the resources its NewFunc makes still have the Go field)
+	typ14, err := jsonapi.BuildType(reflect.New(structType("t14", defMap{"pub": {Kind: "attr", K: "string"}, "token": {Kind: "attr", K: "string"}}, kindMap{})).Interface())
+	must(err)
+	must(s.AddType(typ14))
+	s.RemoveAttr("t14", "token")
 	return s
 }
 
@@ -273,6 +279,13 @@ func sharedOp(s *jsonapi.Schema, op string, p int) {
 		je2.Source["pointer"] = "/data/relationships/yy" + id // (a handler completes the error it passes on)
 		if je1.Meta["unknown-field"] != "zz"+id || je1.Meta["type"] != "t1" || !strings.Contains(je1.Detail, "zz"+id) || je1.Source["pointer"] != "" {
 			panic("an error kept from an earlier refusal changed when another body was refused")
+		}
+		// a body that names the attribute its type no longer serves: refused like any unknown field
+		if r14, err := jsonapi.UnmarshalResource([]byte(`{"type":"t14","id":"`+id+`","attributes":{"pub":"p","token":"s3cret"}}`), s); err == nil || r14 != nil {
+			panic("a body that names an attribute the schema does not serve was accepted")
+		}
+		if r14, err := jsonapi.UnmarshalResource([]byte(`{"type":"t14","id":"`+id+`","attributes":{"pub":"p"}}`), s); err != nil || r14.Get("pub") != "p" {
+			panic("a body of the narrowed type was refused")
 		}
 		first := doc.Data.(jsonapi.Collection).At(0)
 		if mh, ok := first.(jsonapi.MetaHolder); !ok || len(mh.Meta()) != 1 || mh.Meta()["owner"] != id ||
